@@ -90,7 +90,7 @@ def run(ctx, chk):
     thorough = ctx.tier == "thorough"
     GA = ctx.gram("preprocessor")
     E = GramEval(GA)
-    chk.rule("C10.R1", "every emission is a finite set of string templates", floor=150)
+    chk.rule("C10.R1", "every emission is a finite set of string templates", floor=127)
     chk.rule("C10.R2", "every emitted line is a sentence of its downstream grammar", floor=3000)
     chk.rule("C10.R3", "numeric holes stay within the downstream conversion's range", floor=300)
     chk.rule("C10.R4", "no label name can lex as a downstream keyword", floor=3)
